@@ -37,5 +37,6 @@ Extraction "model.ml"
   HtmlSpec.well_nested
   HtmlSpec.safe_ev
   HtmlSpec.s7
+  HtmlSpec.s4
   Scanners.dangerous_url
 .
